@@ -40,6 +40,8 @@ func registerHandlers() {
 			return nil, err
 		}
 		body := func() vx.Out { return nsqd.RunMicro(j.Spec) }
+		// the budget of a scenario is a number of executions (deterministic coverage,
+		// independent of machine load); the wall-clock deadline is only a safety net
 		opt := vx.Opt{MaxRuns: j.MaxRuns, NoSleep: j.Brute}
 		if j.Secs > 0 {
 			opt.Deadline = time.Now().Add(time.Duration(j.Secs) * time.Second)
@@ -204,7 +206,9 @@ var checks = map[string]func(tier string) int{}
 func runMicros(rep *vx.Report, specs []nsqd.MicroSpec, secsEach int, brute bool) {
 	var args []interface{}
 	for _, s := range specs {
-		args = append(args, microJob{Spec: s, Secs: secsEach, Brute: brute})
+		// secsEach used to be a wall-clock budget; it now scales an execution budget
+		// (about 400 executions per "second"), with 6x the time as a safety net
+		args = append(args, microJob{Spec: s, MaxRuns: secsEach * 400, Secs: secsEach * 6, Brute: brute})
 	}
 	totalRuns, blocked, maxPts, capped, other := 0, 0, 0, 0, 0
 	vx.Par("micro", args, func(i int, res json.RawMessage, errStr, crash string) {
